@@ -571,7 +571,7 @@ genRespOp()
 		switch (t) {
 		case 0: o << "req " << p << " " << *gen::weightedElement<int>({{6, 0}, {3, 1}, {2, 2}, {1, 6}, {1, 7}, {1, 8}, {1, 14}, {1, 15}}); break;
 		case 1: o << "recv " << k; break;
-		case 2: o << "send " << k; break;
+		case 2: o << "send " << k << " " << *pbt::welem<int>({{4, 0}, {1, 1}, {1, 2}}) << " " << *pbt::range<int>(0, 1); break;
 		case 3: o << "attach " << p; break;
 		case 4: o << "detach " << p; break;
 		case 5: o << "ctxopen " << *pbt::range<int>(1, 2); break;
